@@ -92,6 +92,33 @@ def same_identifier_different_kinds():
     return fails
 
 
+def genes_of_one_group_removed_together():
+    from cobra.core.group import Group
+    from cobra.manipulation import remove_genes
+    fails = []
+    m = _model()
+    g1, g2 = m.genes.get_by_id("X1"), m.genes.get_by_id("g2")
+    grp = Group("genes", members=[g1, g2, m.reactions.get_by_id("X3")])
+    m.add_groups([grp])
+    before = sorted((type(x).__name__, x.id) for x in grp.members)
+    for nested in (False, True):
+        try:
+            with m:
+                if nested:
+                    m.__enter__()
+                remove_genes(m, [g1, g2], remove_reactions=False)
+                if nested:
+                    m.__exit__(None, None, None)
+        except Exception as e:  # noqa
+            fails.append("raised %s: %s" % (type(e).__name__, str(e)[:120]))
+            continue
+        after = sorted((type(x).__name__, x.id) for x in grp.members)
+        if after != before:
+            fails.append("remove_genes of two genes of one group inside a %sblock: membership after the exit %s differs from "
+                         "the one at entry %s" % ("nested " if nested else "", after, before))
+    return fails
+
+
 def _run(rep, fns, prop):
     out = {}
     with warnings.catch_warnings():
@@ -114,7 +141,7 @@ def run_c02(rep, args, rng):
 
 
 def run_c03(rep, args, rng):
-    return _run(rep, [same_identifier_different_kinds], "C03")
+    return _run(rep, [same_identifier_different_kinds, genes_of_one_group_removed_together], "C03")
 
 
 if __name__ == "__main__":
